@@ -159,6 +159,7 @@ def run(tier='quick'):
                         'columns naming that kind of row, directly or through the parameters of the storage / table '
                         'functions it is passed to (spec/domains.json)', floor=100)
     domains.apply_bind_rule(prog, cg, eff, chk, K5)
+    domains.apply_width_rule(prog, cg, eff, chk, K5)
     return chk.finish('value-flow interpretation of the membership operations of both implementations '
                       '(id kinds of bound values, event order), reference graph and triggers read from the DDL '
                       'of every schema version')
@@ -210,6 +211,50 @@ def _reference_defs(prog):
     return out
 
 
+def tables_match_reference(prog, chk, rid, tables, gens=(1, 2)):
+    """The definition each supported creator issues for the named tables (columns with their types
+    and constraints, AUTOINCREMENT, keys) equals the definition in a reference dump of the same
+    version (testdata/ref).  One instance per (version, table) that has a reference."""
+    from . import c13
+    cats = rowrules.version_catalogs(prog)
+    supported = [en for en in rowrules.enum_order(prog) if en in set(c13._supported(prog))]
+    try:
+        refs = schemas.load_references(prog.repo)
+    except AnalysisBroken:
+        refs = []
+    n = 0
+    for en in supported:
+        g = 2 if rowrules._gen2(en) else 1
+        if g not in gens:
+            continue
+        ver, variant = c13._triple(en)
+        cands = [r for r in refs if r.version and tuple(r.version) == ver and
+                 (ver != (1, 18, 0) or r.variant == variant)]
+        if not cands:
+            continue
+        for alias, cat in cats[en].items():
+            mine = cat.object_sigs()
+            for t in tables:
+                key = ('table', t.lower())
+                if key not in mine:
+                    continue
+                theirs = [r.catalogs[alias].object_sigs().get(key) for r in cands if alias in r.catalogs]
+                theirs = [x for x in theirs if x is not None]
+                if not theirs:
+                    continue
+                n += 1
+                inst = '%s: table %s as created equals its definition in the reference dump(s) of the version' % (en, t)
+                if mine[key] in theirs:
+                    chk.ok(rid, inst, en)
+                else:
+                    a, b = mine[key], theirs[0]
+                    diff = [(x, y) for x, y in zip(a[2], b[2]) if x != y][:2] or [(a[3:], b[3:])]
+                    chk.violation(rid, '%s|table %s differs from the reference' % (en, t), en,
+                                  '%s: created %s, reference %s (column tuple: name, type, notnull, default, pk, '
+                                  'autoincrement, unique, references, collate, check)' % (inst, diff[0][0], diff[0][1]))
+    return n
+
+
 def chain_trigger_siblings(prog, chk, rid, tables=('playlist', 'playlistentity'), views=()):
     """The per-version copies of a chain-maintaining trigger are siblings: all supported 2.x
     creators must issue the same normalised definition for a trigger of the same name (the
@@ -251,6 +296,19 @@ def chain_trigger_siblings(prog, chk, rid, tables=('playlist', 'playlistentity')
                 continue
             odd.append(en)
         inst = '%s: %d version copies' % (n if n.startswith('view ') else 'trigger ' + n, len(d))
+        # independent of the majority: each copy equals the definition in a reference dump of its version
+        kind_, nm_ = ('view', n[5:]) if n.startswith('view ') else ('trigger', n)
+        for en, v in sorted(d.items()):
+            have = refs.get((c13._triple(en)[0], kind_, nm_.lower()))
+            if have and v not in have and en not in odd:
+                a, b = v, sorted(have)[0]
+                k = 0
+                while k < min(len(a), len(b)) and a[k] == b[k]:
+                    k += 1
+                k = max(0, a.rfind(' ', 0, max(0, k - 30)) + 1)
+                chk.violation(rid, '%s|%s differs from the reference dump' % (en, n), en,
+                              '%s: the copy issued by the %s creator differs from the definition in the reference '
+                              'dump(s) of that version: ... %s  vs  ... %s' % (inst, en, a[k:k + 120], b[k:k + 120]))
         if not odd:
             chk.ok(rid, inst + ' identical', n)
         else:
